@@ -25,7 +25,7 @@ EXPLANATION = (
     "tests it on entry; G-YIELD: with facts on self.* killed at every real suspension, each such site that follows a "
     "suspension must still carry the fact `not self._closing`."
 )
-SHARED = [('C10', ['R5', 'R6'], 'a closed broker client arms nothing and fails what is pending'), ('C06', ['R8'], 'a closed bootstrap protocol refuses requests and fails what is pending')]
+SHARED = [('C10', ['R2'], 'requests that close() failed during a flush of the queue are not written afterwards'), ('C08', ['R2'], 'broker clients dropped by a metadata refresh are closed through the aggregate that close() waits for'), ('C10', ['R5', 'R6'], 'a closed broker client arms nothing and fails what is pending'), ('C06', ['R8'], 'a closed bootstrap protocol refuses requests and fails what is pending')]
 ASSUMPTIONS = ["DeferredList fires after every member fired", "endpoint.connect / protocol.request are the only ways the client opens "
                "connections or writes outside _KafkaBrokerClient"]
 KC = "client:KafkaClient"
@@ -405,6 +405,21 @@ def run(ctx):
     for n in cl.nodes:
         if any(call_name(c) == "_connect" for c in n.calls()):
             r.check(known_falsy(fl[n.id], "self._dDown"), "%s#reconnect-only-when-open" % lost.qname, "reconnect after close()", where(lost, n.stmt))
+
+    # ---- R8 shared lookups: the waiters' entry exists before a handler that removes it can run
+    r = ctx.rule("R8", "a table of waiters is filled before the handler that pops it is registered on the request", 1, "B")
+    lcg = ctx.func(KC + ".load_coordinator_for_group")
+    clg = ctx.cfg(lcg)
+    stores_ = [n for n in clg.nodes if n.kind == "stmt" and isinstance(n.stmt, ast.Assign) and any(
+        isinstance(t_, ast.Subscript) and norm(t_.value) == "self._coordinator_fetches" for t_ in n.stmt.targets)]
+    poppers = [g_ for g_ in lcg.nested.values() if any(call_name(c) == "pop" and call_recv(c) == "self._coordinator_fetches" for c in calls_in(g_)) or any(
+        isinstance(x, ast.Subscript) and norm(x.value) == "self._coordinator_fetches" for x in ast.walk(g_.node))]
+    regn = [n for n in clg.nodes if any(call_name(c) in ("addCallback", "addErrback", "addBoth", "addCallbacks") and any(
+        prog.resolve_callable(lcg, a) in poppers for a in c.args) for c in n.calls())]
+    r.check(bool(stores_) and bool(poppers) and bool(regn) and all(clg.dominates([s_.id for s_ in stores_], n.id) for n in regn),
+            "%s#entry-before-handlers" % lcg.qname, "the handler that takes the waiters out of `_coordinator_fetches` is registered before the entry is stored",
+            where(lcg, regn[0].stmt if regn else lcg.node), "the request fails at once (the client is closed): the handler runs during registration, finds "
+            "no entry (KeyError), the entry stored afterwards is never removed - every later coordinator lookup for the group waits on it for ever")
 
     # ---- R5 metadata cleared
     r = ctx.rule("R5", "close() clears the cached metadata (all four routing maps)", 2, "A")
